@@ -93,9 +93,11 @@ func gz(b []byte) []byte {
 var browseKinds = []string{"off", "list", "arch"}
 
 type fixture struct {
-	base  string
-	site  *hx.Site
-	ports map[string]int // "<browse>/<prefix>" -> port
+	base   string
+	site   *hx.Site
+	ports  map[string]int // "<browse>/<prefix>" -> port
+	rootfs int            // port of a site whose root is the file system root
+	cfp    string         // the Casketfile the instance was loaded from
 }
 
 func siteKey(browse string, prefix bool) string { return fmt.Sprintf("%s/%v", browse, prefix) }
@@ -131,6 +133,9 @@ func newFixture(dir string) (*fixture, error) {
 		// a site rooted elsewhere, declared first: the Casketfile must be hidden on every site
 		// whose root holds it, whatever comes before it in the file
 		fmt.Fprintf(&cf, "127.0.0.1:%d {\n\tbind 127.0.0.1\n\ttls off\n\troot %s\n}\n", hx.FreePort(), filepath.Join(base, "out"))
+		// a site whose root is the file system root: the Casketfile lies inside that root too
+		f.rootfs = hx.FreePort()
+		fmt.Fprintf(&cf, "127.0.0.1:%d {\n\tbind 127.0.0.1\n\ttls off\n\troot /\n}\n", f.rootfs)
 		for _, b := range browseKinds {
 			for _, p := range []bool{false, true} {
 				port := hx.FreePort()
@@ -168,6 +173,11 @@ func newFixture(dir string) (*fixture, error) {
 			if err := os.WriteFile(tmp, []byte(cf.String()), 0o644); err == nil {
 				os.Rename(tmp, cfp)
 			}
+			// the Casketfile under another name inside the root: a hard link (symbolic links are
+			// outside the fixture: the jailed file system follows them by design, and a link's own
+			// name is a legitimate directory entry)
+			os.Link(cfp, filepath.Join(root, "d", "alias.conf"))
+			f.cfp = cfp
 			return f, nil
 		}
 		err2 = err
@@ -177,6 +187,39 @@ func newFixture(dir string) (*fixture, error) {
 	}
 	os.RemoveAll(base)
 	return nil, err2
+}
+
+// aliasPart asks for the Casketfile under its other names: a hard link inside
+// the root (the hidden check identifies the file, not its name), and its own path on a site whose
+// root is the file system root. Nothing of it may be returned.
+func (f *fixture) aliasPart(res *hx.Result) {
+	tok := token("root/Casketfile")
+	ask := func(port int, target, what string) {
+		addr := fmt.Sprintf("127.0.0.1:%d", port)
+		r, err := hx.OneShot(addr, "GET", target, addr, "Accept-Encoding: identity")
+		res.Count("alias/" + what)
+		if err != nil {
+			return
+		}
+		found := map[string]bool{}
+		var names []string
+		scan(r.Body, found, &names, 0)
+		if found["root/Casketfile"] || strings.Contains(string(r.Body), tok) {
+			res.Add(hx.Mismatch{Key: "C02/hidden-served/alias/" + what, What: fmt.Sprintf("GET %s (%s) returns the content of the Casketfile the site was loaded from (status %d)", target, what, r.Status),
+				Case: map[string]string{"target": target, "what": what}})
+		}
+	}
+	for key, port := range f.ports {
+		pre := ""
+		if strings.HasSuffix(key, "/true") {
+			pre = "/s"
+		}
+		ask(port, pre+"/d/alias.conf", "hard link "+key)
+		ask(port, pre+"//d/./alias.conf", "hard link "+key)
+		ask(port, pre+"/d/?archive=zip", "archive with hard link "+key)
+	}
+	ask(f.rootfs, f.cfp, "site rooted at /")
+	ask(f.rootfs, "/"+strings.ReplaceAll(f.cfp, "/", "//"), "site rooted at /")
 }
 
 func (f *fixture) close() {
@@ -608,6 +651,9 @@ func TestC02(t *testing.T) {
 		return
 	}
 	defer fx.close()
+	if !hx.SelfTest() {
+		fx.aliasPart(res)
+	}
 
 	// selection: every table entry of the short paths on both kinds of site (canonical spelling and
 	// one random spelling); a seeded sample of the entries of the longer paths
